@@ -1,11 +1,15 @@
 #!/bin/bash
-# mut.sh <patch.diff> <Cxx> [tier] — run one check against a patched /repo, keeping the committed evidence file intact
+# mut.sh <patch.diff> <Cxx> [tier] — run one check against a patched copy of /repo.
+# Neither /repo nor /verif is touched: the check runs in a private mount namespace in which /repo is a
+# patched copy and /verif a scratch copy (so several of these, and background `vp run`s, can run side by side).
 set -u
 patch="$(realpath "$1")"; prop="$2"; tier="${3:-quick}"
-cd /verif
-cp evidence/$prop.json /tmp/evidence_$prop.bak 2>/dev/null
-(cd /repo && git apply "$patch") || { echo "patch does not apply"; exit 2; }
-timeout 3000 ./run.sh $prop $tier; rc=$?
-git -C /repo checkout -- .
-[ -f /tmp/evidence_$prop.bak ] && mv /tmp/evidence_$prop.bak evidence/$prop.json
-exit $rc
+W=$(mktemp -d /tmp/mutns.XXXXXX)
+trap 'rm -rf "$W"' EXIT
+rsync -a --exclude .git /repo/ "$W/repo/"
+(cd "$W/repo" && git apply "$patch") || { echo "patch does not apply"; exit 2; }
+rsync -a --exclude .git --exclude seeded --exclude replays /verif/ "$W/verif/"
+lock=""
+case "$prop" in C09|C20) lock="flock /tmp/verif_realnats.lock";; esac
+$lock unshare -m sh -c "mount --bind '$W/repo' /repo && mount --bind '$W/verif' /verif && cd /verif && timeout 3000 ./run.sh $prop $tier"
+exit $?
